@@ -40,6 +40,11 @@ pub enum Op16
     W2AddB,
     W2RemoveB,
     W2RemoveResource,
+    /// Third world reactor: type-wide component triggers (starting trigger insertion<CA>, addable mutation<CA>), which
+    /// share one table entry per component type.
+    W3AddMutation,
+    W3RemoveInsertion,
+    W3RemoveMutation,
 }
 
 pub fn all_ops16() -> Vec<Op16>
@@ -68,6 +73,9 @@ pub fn all_ops16() -> Vec<Op16>
     v.push(Op16::W2AddB);
     v.push(Op16::W2RemoveB);
     v.push(Op16::W2RemoveResource);
+    v.push(Op16::W3AddMutation);
+    v.push(Op16::W3RemoveInsertion);
+    v.push(Op16::W3RemoveMutation);
     v
 }
 
@@ -83,6 +91,8 @@ pub enum Rec16
     World2(u8),
     /// The plain app-level reactor (broadcast<EvB>): payload id read
     Plain(u32),
+    /// Third world reactor: 1 insertion / 2 mutation (entity index), 0 nothing readable
+    World3(u8, i32),
 }
 
 thread_local!
@@ -157,6 +167,22 @@ impl WorldReactor for WR2
     }
 }
 
+struct WR3;
+impl WorldReactor for WR3
+{
+    type StartingTriggers = InsertionTrigger<CA>;
+    type Triggers = MutationTrigger<CA>;
+    fn reactor(self) -> SystemCommandCallback
+    {
+        SystemCommandCallback::new(|i: InsertionEvent<CA>, m: MutationEvent<CA>| {
+            let rec = if let Ok(e) = i.get() { Rec16::World3(1, ent_index(e)) }
+                else if let Ok(e) = m.get() { Rec16::World3(2, ent_index(e)) }
+                else { Rec16::World3(0, -1) };
+            LOG.with(|l| l.borrow_mut().push(rec));
+        })
+    }
+}
+
 fn plain_reactor(b: BroadcastEvent<EvB>)
 {
     let p = b.try_read().map(|e| e.0.0).unwrap_or(u32::MAX);
@@ -182,11 +208,13 @@ pub struct Model16
     pub w2_b: u8,
     pub w2_res: u8,
     pub payloads: u32,
+    pub w3_ins: u8,
+    pub w3_mut: u8,
 }
 
 impl Model16
 {
-    pub fn new() -> Self { Model16{ alive: [true; N_ENTS], has_comp: [true; N_ENTS], w2_b: 1, w2_res: 1, ..Default::default() } }
+    pub fn new() -> Self { Model16{ alive: [true; N_ENTS], has_comp: [true; N_ENTS], w2_b: 1, w2_res: 1, w3_ins: 1, ..Default::default() } }
 
     /// Applies an op; returns the expected run records (as a sorted multiset).
     pub fn apply(&mut self, op: Op16) -> Vec<Rec16>
@@ -236,6 +264,7 @@ impl Model16
                         }
                     }
                     for _ in 0..self.w_entmut[ei] { out.push(Rec16::World(2, ei as i32)); }
+                    for _ in 0..self.w3_mut { out.push(Rec16::World3(2, ei as i32)); }
                 }
             }
             Op16::FireEntityEvent(e) =>
@@ -258,6 +287,7 @@ impl Model16
                 if self.alive[ei]
                 {
                     self.has_comp[ei] = true;
+                    for _ in 0..self.w3_ins { out.push(Rec16::World3(1, ei as i32)); }
                     for _ in 0..self.regs[1][ei][1]
                     {
                         let d = self.local[1][ei].unwrap_or(u32::MAX);
@@ -277,6 +307,9 @@ impl Model16
             Op16::W2AddB => { self.w2_b += 1; }
             Op16::W2RemoveB => { if self.w2_b > 0 { self.w2_b -= 1; } }
             Op16::W2RemoveResource => { if self.w2_res > 0 { self.w2_res -= 1; } }
+            Op16::W3AddMutation => { self.w3_mut += 1; }
+            Op16::W3RemoveInsertion => { if self.w3_ins > 0 { self.w3_ins -= 1; } }
+            Op16::W3RemoveMutation => { if self.w3_mut > 0 { self.w3_mut -= 1; } }
             Op16::Despawn(e) =>
             {
                 let ei = e as usize;
@@ -307,6 +340,7 @@ impl Model16
             Op16::Add(r, e) => self.regs[(r - 1) as usize][e as usize].iter().all(|c| *c < 2),
             Op16::WAdd(e) => self.w_broadcast < 2 && self.w_entmut[e as usize] < 2,
             Op16::W2AddB => self.w2_b < 2,
+            Op16::W3AddMutation => self.w3_mut < 2,
             Op16::Despawn(e) => self.alive[e as usize],
             _ => true,
         }).collect()
@@ -331,6 +365,7 @@ pub fn run16(hist: &[Op16]) -> StepResult<Key16>
     // registered before the plugin is added: the app extension prepares what it needs by itself
     app.add_world_reactor_with(WR2, (broadcast::<EvB>(), resource_mutation::<RA>()));
     app.add_reactor(broadcast::<EvB>(), plain_reactor);
+    app.add_world_reactor_with(WR3, insertion::<CA>());
     app.add_plugins(ReactPlugin);
     app.world_mut().insert_react_resource(RA(0));
     app.add_world_reactor(WR).add_entity_reactor(ER1).add_entity_reactor(ER2);
@@ -347,6 +382,7 @@ pub fn run16(hist: &[Op16]) -> StepResult<Key16>
     let mut stop = false;
     let mut payload = 0u32;
     let w2_sys = hooks::world_reactor_system::<WR2>(app.world()).map(|s| *s);
+    let w3_sys = hooks::world_reactor_system::<WR3>(app.world()).map(|s| *s);
 
     for (k, op) in hist.iter().enumerate()
     {
@@ -427,6 +463,9 @@ pub fn run16(hist: &[Op16]) -> StepResult<Key16>
                 Op16::W2AddB => { world.syscall((), |mut c: Commands, reactor: Reactor<WR2>| { reactor.add(&mut c, broadcast::<EvB>()); }); }
                 Op16::W2RemoveB => { world.syscall((), |mut c: Commands, reactor: Reactor<WR2>| { reactor.remove(&mut c, broadcast::<EvB>()); }); }
                 Op16::W2RemoveResource => { world.syscall((), |mut c: Commands, reactor: Reactor<WR2>| { reactor.remove(&mut c, resource_mutation::<RA>()); }); }
+                Op16::W3AddMutation => { world.syscall((), |mut c: Commands, reactor: Reactor<WR3>| { reactor.add(&mut c, mutation::<CA>()); }); }
+                Op16::W3RemoveInsertion => { world.syscall((), |mut c: Commands, reactor: Reactor<WR3>| { reactor.remove(&mut c, insertion::<CA>()); }); }
+                Op16::W3RemoveMutation => { world.syscall((), |mut c: Commands, reactor: Reactor<WR3>| { reactor.remove(&mut c, mutation::<CA>()); }); }
                 Op16::Despawn(e) => { world.try_despawn(ents[e as usize]); }
                 Op16::WAdd(e) =>
                 {
@@ -486,7 +525,7 @@ pub fn run16(hist: &[Op16]) -> StepResult<Key16>
         }
         // the reactor systems are never despawned or duplicated
         let snap = hooks::snapshot(world);
-        for (name, sys) in [("world", w_sys), ("entity1", e1_sys), ("entity2", e2_sys), ("world2", w2_sys)]
+        for (name, sys) in [("world", w_sys), ("entity1", e1_sys), ("entity2", e2_sys), ("world2", w2_sys), ("world3", w3_sys)]
         {
             let ok = sys.map(|s| snap.system_commands.iter().any(|(e, has)| *e == s && *has)).unwrap_or(false);
             if !ok { violations.push(("reactor-system-gone".into(), format!("after {:?}: the {name} reactor's system no longer exists", op))); stop = true; }
